@@ -233,11 +233,13 @@ fn socket_write(k: &mut Kawa<VecBuf>, n: usize, wire: &mut Vec<u8>) -> usize {
     let avail = out_bytes(k, 0);
     let n = n.min(avail.len());
     wire.extend_from_slice(&avail[..n]);
+    // mirrors `flush_stream_out` (lib/src/protocol/mux/h2.rs): `Kawa::consume` may shift the
+    // storage and re-bases only `kawa.out`; the queued blocks are re-based by the caller
+    // (fix for F65-F67). `H1BODY_PRE_FIX=1` replays the pre-fix call pattern, only to
+    // show that the three *-after-shift-with-queued-blocks oracles are still alive.
     let end_before = k.storage.end;
     k.consume(n);
-    // H1BODY_MIRROR_FIX=1: mirror proposed_fixes/h2-flush-rebase-queued-blocks.diff (re-base the
-    // queued blocks after a shift) to check that the repair removes the corruption
-    if std::env::var("H1BODY_MIRROR_FIX").is_ok() {
+    if std::env::var("H1BODY_PRE_FIX").is_err() {
         let shifted = end_before - k.storage.end;
         if shifted > 0 {
             for b in k.blocks.iter_mut() {
@@ -377,6 +379,21 @@ impl Area for H1Body {
             s(&[&format!("new chunked {hl} 256 resp"), &format!("feed {}", hex(&resp[..hl + 2])), &format!("feed {}", hex(&resp[hl + 2..hl + 5])), "h2 16384 2", "consume 1000", &format!("feed {}", hex(&resp[hl + 5..])), "h2 16384 10", "consume 1000"]),
             s(&[&format!("stream 64 chunked {hl} {} h2 1", hex(resp))]),
             s(&[&format!("stream 64 chunked {hl} {} h1 2", hex(resp))]),
+            // F65 witness (seed 1, case 11 before the fix): 16384-byte response through a 4096-byte
+            // buffer; a partial socket write shifts the storage while a window-stalled chunk is queued
+            s(&[&{
+                let mut m = b"HTTP/1.1 200 OK\r\nServer: t\r\nContent-Length: 16384\r\n\r\n".to_vec();
+                let hl = m.len();
+                m.extend_from_slice(&pattern(173, 16384));
+                format!("stream 4096 cl:16384 {hl} {} h2 463701567", hex(&m))
+            }]),
+            // F66 witness (slice index panic), seed 1 case 95: 20000-byte request body, 233-byte buffer
+            s(&[&{
+                let mut m = b"POST /upload HTTP/1.1\r\nHost: a.test\r\nX-Pad: abcdefghij\r\nContent-Length: 20000\r\n\r\n".to_vec();
+                let hl = m.len();
+                m.extend_from_slice(&pattern(7, 20000));
+                format!("stream 233 cl:20000 {hl} {} h2 215901865", hex(&m))
+            }]),
         ]
     }
     fn lines_agree(&self, impl_line: &str, model_line: &str) -> bool {
